@@ -3,7 +3,7 @@
 (* of what `--inject` / plain decompilation must produce.                   *)
 EXTENDS Naturals, Sequences, FiniteSets, TLC, Json
 CONSTANTS MaxN
-Family == {"plain", "calls", "memo", "proto0atom"}
+Family == {"plain", "calls", "memo", "proto0atom", "reinjected"}
 VARIABLES n, k, runLast, replace, chan, fams
 vars == <<n, k, runLast, replace, chan, fams>>
 Init == /\ n \in 1..MaxN /\ k \in 0..n /\ runLast \in BOOLEAN /\ replace \in BOOLEAN /\ chan \in {"file", "stdin"}
